@@ -6,13 +6,18 @@ import (
 	"context"
 	"encoding/json"
 	"fmt"
+	"net/http"
+	"net/http/httptest"
 	"strings"
 	"sync"
 	"testing"
 	"time"
 
 	"tunnox-core/internal/core/storage"
+	"tunnox-core/internal/httpservice"
+	"tunnox-core/internal/httpservice/modules/domainproxy"
 	"tunnox-core/internal/packet"
+	"tunnox-core/internal/protocol/httptypes"
 	vk "tunnox-core/internal/verifkit"
 )
 
@@ -165,6 +170,29 @@ func TestVerifC19Commands(t *testing.T) {
 			} else if ok {
 				run.Count("routes_to_winner", 1)
 			}
+			// phase 1b: every refused claimant sends ordinary deletes, under its own
+			// identity, for the (sequential, predictable) mapping ids around the one its
+			// refused attempt consumed. Replies carry no obligation (unknown id → "already
+			// deleted"); the EFFECT does: the winner keeps the name and its target.
+			for i := range cl {
+				if i == win {
+					continue
+				}
+				for id := 1; id <= g+2; id++ {
+					c19Command(cl[i], packet.HTTPDomainDelete, packet.HTTPDomainDeleteRequest{MappingID: fmt.Sprintf("hdm_%d", id)})
+					run.Count("refused_claimant_deletes", 1)
+				}
+				c, tg, ok := owner()
+				if !ok || c != cl[win].ClientID || tg != wantTarget(win) {
+					run.Violation("C19:cmd|refused-claimant-delete-changed-owner|store="+kind, map[string]any{"name": full, "owner": cl[win].ClientID, "refused_claimant": cl[i].ClientID, "routes": ok, "now_client": c, "now_target": tg, "create_responses": c19Raw(outs)})
+					break
+				}
+				run.Count("refused_claimant_deletes_left_owner_intact", 1)
+				if rc := c19Command(cl[i], packet.HTTPDomainCreate, packet.HTTPDomainCreateRequest{TargetURL: target(i), Subdomain: sub, BaseDomain: base}); rc.answered && rc.Success {
+					run.Violation("C19:cmd|double-owner|store="+kind, map[string]any{"name": full, "owner": cl[win].ClientID, "second": cl[i].ClientID, "after": "deletes of guessed ids by the refused claimant", "response": rc.raw})
+					break
+				}
+			}
 			// phase 2: a non-owner names the winner's mapping id
 			other := (win + 1) % g
 			d := c19Command(cl[other], packet.HTTPDomainDelete, packet.HTTPDomainDeleteRequest{MappingID: outs[win].MappingID})
@@ -258,6 +286,7 @@ func TestVerifC19Commands(t *testing.T) {
 	run.Floor("claims_refused_owned", 200)
 	run.Floor("reclaims_ok", 200)
 	run.Floor("unbound_requests_left_owner_intact", 100)
+	run.Floor("refused_claimant_deletes_left_owner_intact", 300)
 }
 
 func c19Raw(outs []c19CmdOut) []string {
@@ -270,4 +299,164 @@ func c19Raw(outs []c19CmdOut) []string {
 		r = append(r, strings.TrimSpace(s))
 	}
 	return r
+}
+
+// ---------------------------------------------------------------- announced expiry
+
+type c19ExpSess struct {
+	mu   sync.Mutex
+	last int64
+	n    int
+}
+
+type c19ExpConn struct{}
+
+func (c19ExpConn) GetConnID() string     { return "c19-exp" }
+func (c19ExpConn) GetRemoteAddr() string { return "203.0.113.7:5000" }
+
+func (s *c19ExpSess) GetControlConnectionInterface(int64) httpservice.ControlConnectionAccessor {
+	return c19ExpConn{}
+}
+func (s *c19ExpSess) BroadcastConfigPush(int64, string) error { return nil }
+func (s *c19ExpSess) GetNodeID() string                       { return "c19-exp-node" }
+func (s *c19ExpSess) SendHTTPProxyRequest(clientID int64, req *httptypes.HTTPProxyRequest) (*httptypes.HTTPProxyResponse, error) {
+	s.mu.Lock()
+	s.last, s.n = clientID, s.n+1
+	s.mu.Unlock()
+	return &httptypes.HTTPProxyResponse{RequestID: req.RequestID, StatusCode: 200, Headers: map[string]string{}, Body: []byte("ok")}, nil
+}
+func (s *c19ExpSess) RequestTunnelForHTTP(int64, string, string, string) (httpservice.TunnelConnectionInterface, error) {
+	return nil, fmt.Errorf("c19: tunnel mode not driven")
+}
+func (s *c19ExpSess) NotifyClientUpdate(int64) {}
+func (s *c19ExpSess) count() int {
+	s.mu.Lock()
+	defer s.mu.Unlock()
+	return s.n
+}
+
+// TestVerifC19CommandsExpiry: "expired mappings do not route" at the command boundary.
+// The create reply ANNOUNCES the end of the mapping (expires_at). Whatever optional
+// fields the request carried (description of 0 … 64 KiB), a request arriving certainly
+// after that instant must be rejected. Interval rule: the repository compares
+// time.Now().Unix() > expires_at, so "certainly after" = the harness' own clock reads
+// ≥ expires_at + 2 s before the request is made. The wait is capped (watchdog →
+// inconclusive).
+func TestVerifC19CommandsExpiry(t *testing.T) {
+	vk.Quiet()
+	run := vk.Start(t, "C19", "commands-expiry")
+	defer run.Finish()
+	run.Rule("on a fresh mini-server per store kind one client sends HTTPDomainCreate with mapping_ttl=1 s and a description of 0, 12, 255, 256, 257, 1024, 4096 and 65536 bytes (distinct names); every reply that announces expires_at creates the obligation: routed while certainly before it is optional, rejected once the clock is certainly past it (real ServeHTTP on the node's repository); distinct = store|description size|announced?|routes before|routes after")
+	sizes := []int{0, 12, 255, 256, 257, 1024, 4096, 65536}
+	type made struct {
+		kind, full string
+		size       int
+		exp        time.Time
+		mod        *domainproxy.DomainProxyModule
+		sess       *c19ExpSess
+		before     bool
+	}
+	var all []*made
+	var latest time.Time
+	var closers []func()
+	defer func() {
+		for _, f := range closers {
+			f()
+		}
+	}()
+	get := func(m *made, host string) bool {
+		req := httptest.NewRequest("GET", "http://placeholder.invalid/x", nil)
+		req.Host = host
+		rec := httptest.NewRecorder()
+		n0 := m.sess.count()
+		m.mod.ServeHTTP(rec, req)
+		return m.sess.count() > n0 || rec.Code == http.StatusOK
+	}
+	for _, kind := range []string{"hybrid-mem", "memory"} {
+		ctx, cancel := context.WithCancel(context.Background())
+		var st storage.Storage
+		if kind == "memory" {
+			st = storage.NewMemoryStorage(ctx)
+		} else {
+			cache, _ := storage.NewMemoryStorage(ctx).(storage.CacheStorage)
+			st = storage.NewHybridStorageWithSharedCache(ctx, cache, nil, nil, storage.DefaultHybridConfig())
+		}
+		n := newMiniNode(t, miniOpts{Store: st})
+		closers = append(closers, func() { n.Close(); cancel() })
+		sess := &c19ExpSess{}
+		mod := domainproxy.NewDomainProxyModule(ctx, &httpservice.DomainProxyModuleConfig{Enabled: true, BaseDomains: []string{"tunnox.net"}, CommandModeThreshold: 1 << 20, RequestTimeout: 2 * time.Second})
+		mod.SetDependencies(&httpservice.ModuleDependencies{HTTPDomainMappingRepo: n.Domains, SessionMgr: sess})
+		cl := n.NewClient("198.51.100.77:41000")
+		for i, size := range sizes {
+			sub := fmt.Sprintf("ttl%d", i)
+			run.Case("expiry|"+kind, map[string]any{"description_bytes": size, "name": sub})
+			out := c19Command(cl, packet.HTTPDomainCreate, packet.HTTPDomainCreateRequest{
+				TargetURL: "http://127.0.0.1:8080", Subdomain: sub, BaseDomain: "tunnox.net", MappingTTL: 1,
+				Description: strings.Repeat("d", size)})
+			run.Eval(1)
+			run.Count("creates_with_ttl", 1)
+			if !out.answered || !out.Success {
+				run.Count("creates_refused_or_unanswered", 1) // no claim, no obligation
+				continue
+			}
+			var full struct {
+				ExpiresAt string `json:"expires_at"`
+			}
+			raw := out.raw
+			var env struct {
+				Data json.RawMessage `json:"data"`
+			}
+			if json.Unmarshal([]byte(raw), &env) == nil && len(env.Data) > 0 {
+				d := []byte(env.Data)
+				var str string
+				if json.Unmarshal(d, &str) == nil {
+					d = []byte(str)
+				}
+				_ = json.Unmarshal(d, &full)
+			}
+			exp, err := time.Parse(time.RFC3339, full.ExpiresAt)
+			if full.ExpiresAt == "" || err != nil {
+				run.Count("creates_without_announced_expiry", 1) // nothing was promised
+				continue
+			}
+			run.Count("creates_with_announced_expiry", 1)
+			m := &made{kind: kind, full: sub + ".tunnox.net", size: size, exp: exp, mod: mod, sess: sess}
+			if time.Now().Unix() < exp.Unix() { // certainly before the end
+				m.before = get(m, m.full)
+				if m.before {
+					run.Count("routed_before_expiry", 1)
+				}
+			}
+			all = append(all, m)
+			if exp.After(latest) {
+				latest = exp
+			}
+		}
+	}
+	// wait until the clock is certainly past every announced instant
+	deadline := time.Now().Add(15 * time.Second)
+	for time.Now().Unix() < latest.Unix()+2 {
+		if time.Now().After(deadline) {
+			run.Count("watchdog", 1)
+			run.Floor("lookups_after_expiry", 1)
+			return
+		}
+		time.Sleep(50 * time.Millisecond)
+	}
+	for _, m := range all {
+		for _, h := range []string{m.full, m.full + ":80"} {
+			after := get(m, h)
+			run.Count("lookups_after_expiry", 1)
+			run.Distinct(fmt.Sprintf("%s|%d|before=%v|after=%v", m.kind, m.size, m.before, after))
+			if after {
+				run.Violation(fmt.Sprintf("C19:cmd|expired-routes|description_bytes=%d", m.size), map[string]any{
+					"store": m.kind, "name": m.full, "host": h, "announced_expires_at": m.exp.Format(time.RFC3339), "asked_at": time.Now().Format(time.RFC3339Nano),
+					"description_bytes": m.size, "mapping_ttl_s": 1})
+			}
+		}
+	}
+	run.Sample(map[string]any{"sizes": sizes, "mappings": len(all)})
+	run.Floor("creates_with_announced_expiry", 12)
+	run.Floor("lookups_after_expiry", 24)
+	run.Floor("routed_before_expiry", 1)
 }
